@@ -463,6 +463,7 @@ def events_to_moves(events, in_ops, tab, pam):
                 if j is not None:
                     rem.pop(j)
                 stats['p'] += 1
+                stats.setdefault('_plocs', []).append(tuple(ploc))
                 k += 3
                 continue
             moves.append('x 99999')
@@ -761,12 +762,20 @@ def _run_chunk(specs):
     out = []
     for s in specs:
         try:
-            out.append(run_case(s))
+            if s.get('pam'):
+                from harness.c09_pam import run_pam_case
+                out.append(run_pam_case(s))
+            else:
+                out.append(run_case(s))
         except Exception as e:        # harness trouble: report, never hide
             import traceback
             out.append({'spec': s, 'crash': traceback.format_exc()[-1500:],
                         'viol': [], 'lines': [], 'expect': [], 'stats': {}})
     return out
+
+
+def _bg_chunk(specs, q):
+    q.put(_run_chunk(specs))
 
 
 # ======================================================================
@@ -821,14 +830,14 @@ def gen_specs(rng, thorough):
     for N in (2, 3, 4, 5):
         gs = all_connected_graphs(N)
         if N == 5 and not thorough:
-            gs = [gs[i] for i in sorted(rng.sample(range(len(gs)), 150))]
+            gs = [gs[i] for i in sorted(rng.sample(range(len(gs)), 120))]
         reps = 3 if (thorough or N < 5) else 1
         for es in gs:
             for _ in range(reps):
                 n = rng.randint(2, N)
                 specs.append(mk(n, N, es))
     # random connected graphs up to 10 vertices, machines larger than the circuit
-    for _ in range(6000 if thorough else 330):
+    for _ in range(6000 if thorough else 280):
         N = rng.randint(3, 10)
         n = rng.randint(2, min(N, 8))
         specs.append(mk(n, N, random_connected_graph(rng, N),
@@ -840,6 +849,31 @@ def gen_specs(rng, thorough):
         s = mk(n, n, [(i, i + 1) for i in range(n - 1)], looping=(sw, lm),
                placement='trivial', layout=None, partition=None, radix=2)
         s['im0'], s['fm0'] = list(range(n)), list(range(n))
+        specs.append(s)
+    # permutation-aware mapping, fabricated exact permutation data
+    for _ in range(1500 if thorough else 70):
+        N = rng.randint(3, 7)
+        n = rng.randint(2, min(N, 5))
+        s = mk(n, N, random_connected_graph(rng, N), nops=rng.randint(3, 14),
+               kinds='12222', radix=2, partition=None,
+               placement=rng.choice(['greedy', 'custom']), layout=rng.choice([None, 1, 2]))
+        s['im0'], s['fm0'] = list(range(n)), list(range(n))
+        s.update(radix=2, partition=None, kinds='12222')
+        s.update(pam=True, source='fab', block=rng.choice([2, 2, 3]),
+                 gcw=rng.choice([0.0, 0.1, 0.3, 1.0]),
+                 barrier_p=rng.choice([0.0, 0.25, 0.25]))
+        if s['block'] == 3:
+            s['kinds'] = '122223'
+        specs.append(s)
+    for _ in range(10 if thorough else 1):
+        N = rng.randint(3, 5)
+        n = rng.randint(3, min(N, 4))
+        s = mk(n, N, random_connected_graph(rng, N), nops=rng.randint(4, 8),
+               kinds='1222', radix=2, partition=None, placement='greedy',
+               layout=rng.choice([None, 1]))
+        s['im0'], s['fm0'] = list(range(n)), list(range(n))
+        s.update(radix=2, partition=None, kinds='1222')
+        s.update(pam=True, source='real', block=2, gcw=0.1, barrier_p=0.0)
         specs.append(s)
     # malformed / failing inputs
     for _ in range(200 if thorough else 30):
@@ -902,7 +936,15 @@ def compare(res, replies):
                 bad.append(f'real code raised in {stage} ({exp[1][1]}) but model says: '
                            f'{raw[:120]}')
             continue
-        kind, snap, routed, outt = exp
+        kind, snap, routed, outt = exp[:4]
+        blk = set(exp[4]) if len(exp) > 4 else set()
+
+        def canon(ts):
+            out = []
+            for t in ts:
+                g, p_, l, rr = t.split(';')
+                out.append(f'B;;{l};{rr}' if int(g) in blk else t)
+            return out
         if d is None:
             bad.append(f'{kind}: model rejects the recorded run: {raw[:160]}')
             continue
@@ -915,9 +957,9 @@ def compare(res, replies):
         sg = routed[0].split(';')[0] if False else None
         swap_gid = int(res['lines'][0].split(' | ')[4].split()[0])
         m_routed = em_texts(d['out'], swap_gid, r)
-        if timelines(m_routed, n) != timelines(routed, n):
+        if timelines(canon(m_routed), n) != timelines(canon(routed), n):
             bad.append(f'{kind}: routed circuit differs from the model run')
-        if timelines(d['phys'].split(), N) != timelines(outt, N):
+        if timelines(canon(d['phys'].split()), N) != timelines(canon(outt), N):
             bad.append(f'{kind}: placed circuit differs from the model run')
     return bad
 
@@ -925,7 +967,10 @@ def compare(res, replies):
 def run(ck: Check):
     warnings.simplefilter('ignore')
     from bqskit.ir.circuit import Circuit  # noqa: F401
+    import time
+    t0 = time.time()
     proved = ck.lean_obligations()
+    ck.coverage['phase_s'] = {'lean': round(time.time() - t0, 1)}
     rng = ck.rng
     thorough = ck.tier == 'thorough'
     if ck.replay_path:
@@ -941,20 +986,42 @@ def run(ck: Check):
     ck.coverage['exhaustive'] = False
     ck.coverage['graph_space'] = (
         'all connected labelled graphs on 2..4 vertices; '
-        + ('all' if thorough else '150 seeded') + ' of the 728 on 5 vertices; '
+        + ('all' if thorough else '120 seeded') + ' of the 728 on 5 vertices; '
         'seeded connected graphs on 3..10 vertices')
     nproc = min(8, max(1, (mp.cpu_count() or 2) // 2))
     chunks = [specs[i::nproc * 4] for i in range(nproc * 4)]
     chunks = [c for c in chunks if c]
-    if len(specs) <= 4:
-        results = _run_chunk(specs)
+    serial = [sp for sp in specs if sp.get('source') == 'real']
+    par = [sp for sp in specs if sp.get('source') != 'real']
+    chunks = [par[i::nproc * 4] for i in range(nproc * 4)]
+    chunks = [c for c in chunks if c]
+    ctx = mp.get_context('fork')
+    bg = None
+    if serial:      # these start their own bqskit runtime; run them beside the pool
+        q = ctx.Queue()
+        bg = ctx.Process(target=_bg_chunk, args=(serial, q))
+        bg.start()
+    if len(par) <= 4:
+        results = _run_chunk(par)
     else:
-        with mp.get_context('fork').Pool(nproc) as pool:
+        with ctx.Pool(nproc) as pool:
             results = [r for ch in pool.map(_run_chunk, chunks) for r in ch]
+    ck.coverage['phase_s']['pool'] = round(time.time() - t0, 1)
+    if bg is not None:
+        try:
+            results += q.get(timeout=200 * len(serial) + 60)
+        except Exception:
+            results += [{'spec': sp, 'skipped': 'bqskit runtime case timed out', 'viol': [],
+                         'lines': [], 'expect': [], 'stats': {}} for sp in serial]
+            bg.kill()
+        bg.join(timeout=10)
+    ck.coverage['phase_s']['workload'] = round(time.time() - t0, 1)
     lines = [ln for r in results for ln in r['lines']]
     replies = ck.driver('route', lines) if lines else []
+    ck.coverage['phase_s']['driver'] = round(time.time() - t0, 1)
     pos = 0
     e2e_max = 0.0
+    pam_dev = pam_dev_real = 0.0
     for r in results:
         spec = r['spec']
         if 'crash' in r:
@@ -974,8 +1041,19 @@ def run(ck: Check):
         if r.get('raised'):
             ck.bump('raised', r['raised'][0])
         for kk, v in r['stats'].items():
+            if kk.startswith('_'):
+                continue
             ck.bump('moves', {'x': 'exec', 's': 'swap', 'u': 'unswap(backtrack)',
                               'b': 'pam-barrier', 'p': 'pam-block'}[kk], v)
+        if r.get('skipped'):
+            ck.bump('skipped', r['skipped'][:60])
+            continue
+        if spec.get('pam'):
+            ck.bump('pam_cases', spec['source'])
+            pam_dev = max(pam_dev, r.get('variant_dev', 0.0)) if spec['source'] == 'fab' \
+                else pam_dev
+            if spec['source'] == 'real':
+                pam_dev_real = max(pam_dev_real, r.get('variant_dev', 0.0))
         if 'e2e' in r:
             ck.bump('end_to_end_numeric', 'evaluated')
             e2e_max = max(e2e_max, r['e2e'])
@@ -996,6 +1074,8 @@ def run(ck: Check):
             ck.sample({'n': spec['n'], 'N': spec['N'], 'edges': spec['edges'],
                        'moves': r['stats'], 'reply': rp[0][:300]})
     ck.coverage['end_to_end_max_deviation'] = e2e_max
+    ck.coverage['pam_variant_max_deviation_fabricated'] = pam_dev
+    ck.coverage['pam_variant_max_deviation_synthesised'] = pam_dev_real
     if not proved:
         ck.violation('lean-obligations', 'Props/C09.lean does not check: '
                      + (ck.proof_failure or '')[-600:], {}, found_input=False)
